@@ -39,8 +39,16 @@ Lemma strict_prefix_length (p s : bytes) : strict_prefix p s -> (length p < leng
 Proof. intros (q & Hq & ->). rewrite app_length. destruct q; [congruence|cbn; lia]. Qed.
 
 (* ---- primitive readers --------------------------------------------------------------------------------------- *)
-Lemma lenN_length (bs : bytes) : lenN bs = N.of_nat (length bs).
-Proof. induction bs as [|b r IH]; cbn [lenN length]; [reflexivity|]. rewrite IH. lia. Qed.
+Lemma at_least_spec (bs : bytes) (n : N) : at_least bs n = (n <=? N.of_nat (length bs)).
+Proof.
+  revert n. induction bs as [|b r IH]; intros n; cbn [at_least length].
+  - destruct (N.eqb_spec n 0) as [->|H]; [reflexivity|]. symmetry. apply N.leb_gt. lia.
+  - destruct (N.eqb_spec n 0) as [->|H]; [reflexivity|]. rewrite IH.
+    destruct (N.leb_spec (N.pred n) (N.of_nat (length r))); destruct (N.leb_spec n (N.of_nat (S (length r)))); lia.
+Qed.
+
+Lemma short_spec (bs : bytes) (n : N) : short bs n = (N.of_nat (length bs) <? n).
+Proof. unfold short. rewrite at_least_spec. rewrite N.ltb_antisym. reflexivity. Qed.
 
 Lemma take_app (k : nat) (h r : bytes) : length h = k -> take k (h ++ r) = Some (h, r).
 Proof.
@@ -110,12 +118,12 @@ Proof.
   - subst. reflexivity.
   - destruct H as (n & -> & Hn). cbn [enc dec]. rewrite take_app by apply le_enc_length.
     rewrite le_dec_enc by assumption. reflexivity.
-  - destruct H as (b & -> & Hb). cbn [enc dec]. rewrite lenN_length, app_length.
+  - destruct H as (b & -> & Hb). cbn [enc dec]. rewrite short_spec, app_length.
     destruct (N.ltb_spec (N.of_nat (length b + length rest)) n) as [Hlt|_]; [lia|].
     rewrite take_app by lia. reflexivity.
   - destruct H as (x & y & -> & Hx & Hy). cbn [enc dec]. rewrite <- app_assoc, (IHa _ _ Hx), (IHb _ _ Hy). reflexivity.
   - destruct H as (x & y & -> & Hx & Hy). cbn [enc dec]. rewrite <- app_assoc, (IHa _ _ Hx), (IHg _ _ _ Hy). reflexivity.
-  - destruct H as (l & -> & Hn & Hl). cbn [enc dec]. rewrite lenN_length, app_length.
+  - destruct H as (l & -> & Hn & Hl). cbn [enc dec]. rewrite short_spec, app_length.
     pose proof (concat_nonempty_length e l Hl) as Hlen.
     destruct (N.ltb_spec (N.of_nat (length (concat (map (enc e) l)) + length rest)) n) as [Hlt|_]; [lia|].
     replace (N.to_nat n) with (length l) by lia. rewrite (rep_roundtrip e l rest IHe Hl). reflexivity.
@@ -144,7 +152,7 @@ Proof.
   - destruct H as (n & -> & Hn). cbn [enc] in Hp. cbn [dec]. apply strict_prefix_length in Hp.
     rewrite le_enc_length in Hp. rewrite take_short by assumption. reflexivity.
   - destruct H as (b & -> & Hb). cbn [enc] in Hp. cbn [dec]. apply strict_prefix_length in Hp.
-    rewrite lenN_length. destruct (N.ltb_spec (N.of_nat (length p)) n) as [_|Hge]; [reflexivity|lia].
+    rewrite short_spec. destruct (N.ltb_spec (N.of_nat (length p)) n) as [_|Hge]; [reflexivity|lia].
   - destruct H as (x & y & -> & Hx & Hy). cbn [enc] in Hp. cbn [dec].
     destruct (strict_prefix_app _ _ _ Hp) as [H1|(t & -> & Ht)].
     + rewrite (IHa _ _ Hx H1). reflexivity.
@@ -154,7 +162,7 @@ Proof.
     + rewrite (IHa _ _ Hx H1). reflexivity.
     + rewrite (codec_roundtrip _ _ _ Hx), (IHg _ _ _ Hy Ht). reflexivity.
   - destruct H as (l & -> & Hn & Hl). cbn [enc] in Hp. cbn [dec].
-    destruct (lenN p <? n); [reflexivity|]. replace (N.to_nat n) with (length l) by lia.
+    destruct (short p n); [reflexivity|]. replace (N.to_nat n) with (length l) by lia.
     rewrite (rep_prefix e l (fun v r => codec_roundtrip e v r) IHe Hl p Hp). reflexivity.
   - destruct H as (Hv & Hq). cbn [dec].
     cbn [enc] in Hp. rewrite (IHa _ _ Hv Hp). reflexivity.
@@ -184,7 +192,7 @@ Proof.
   - destruct (take k bs) as [[h t]|] eqn:E; [|discriminate]. injection H as <- <-.
     destruct (take_some _ _ _ _ E) as [-> Hl]. cbn [enc]. apply Forall_app in Hb. destruct Hb as [Hh _].
     rewrite <- Hl, le_enc_dec by assumption. reflexivity.
-  - destruct (lenN bs <? n); [discriminate|]. destruct (take (N.to_nat n) bs) as [[h t]|] eqn:E; [|discriminate].
+  - destruct (short bs n); [discriminate|]. destruct (take (N.to_nat n) bs) as [[h t]|] eqn:E; [|discriminate].
     injection H as <- <-. destruct (take_some _ _ _ _ E) as [-> _]. reflexivity.
   - destruct (dec a bs) as [[x t]|] eqn:E; [|discriminate]. destruct (dec b t) as [[y t']|] eqn:E'; [|discriminate].
     injection H as <- <-. pose proof (IHa _ _ _ Hb E) as ->. apply Forall_app in Hb. destruct Hb as [_ Hb].
@@ -192,7 +200,7 @@ Proof.
   - destruct (dec a bs) as [[x t]|] eqn:E; [|discriminate]. destruct (dec (g x) t) as [[y t']|] eqn:E'; [|discriminate].
     injection H as <- <-. pose proof (IHa _ _ _ Hb E) as ->. apply Forall_app in Hb. destruct Hb as [_ Hb].
     pose proof (IHg _ _ _ _ Hb E') as ->. cbn [enc]. rewrite app_assoc. reflexivity.
-  - destruct (lenN bs <? n); [discriminate|].
+  - destruct (short bs n); [discriminate|].
     destruct (rep_dec (dec e) (N.to_nat n) bs) as [[l t]|] eqn:E; [|discriminate]. injection H as <- <-.
     destruct (rep_dec_enc e IHe _ _ _ _ Hb E) as [-> _]. reflexivity.
   - destruct (dec a bs) as [[x t]|] eqn:E; [|discriminate]. destruct (q x); [|discriminate]. injection H as <- <-.
